@@ -8,7 +8,7 @@ for d in /verif/seeded/*/; do
   S=$(mktemp -d /tmp/desolver-verif-reg-XXXXXX); rsync -a --exclude .git --exclude __pycache__ /repo/ "$S/"
   ( cd "$S" && patch -p1 -s < "$d/patch.diff" ) || { echo "| $id | $prop | PATCH FAILED | |" >> $OUT; rm -rf $S; continue; }
   s=$(date +%s); n=$(VERIF_REPO="$S" /verif/check $prop --tier $TIER 2>&1 | grep -c '^VIOLATION'); e=$(date +%s)
-  note=$(python3 -c "import json;m=json.load(open('$d/meta.json'));print('not detected (documented)' if m.get('not_detected') else 'made harmless by a later fix (documented)' if m.get('neutralised_by') else '')")
+  note=$(python3 -c "import json;m=json.load(open('$d/meta.json'));print('not detected (documented)' if m.get('not_detected') else 'does not break the property as stated (documented)' if m.get('not_property_breaking') else 'made harmless by a later fix (documented)' if m.get('neutralised_by') else '')")
   echo "| $id | $prop | $n $note | $(($e-$s))s |" >> $OUT
   rm -rf "$S"
 done
